@@ -117,6 +117,17 @@ def _narrow_unguarded(fx, hb):
     return False
 
 
+def _unaccounted(fx, hb):
+    from .props import c08_account as AC
+    for n, ps in walk_body(hb):
+        if n.get("k") in ("Call", "MethodCall") and callee_def(n) in AC.PARTIAL:
+            if AC.resume_loop(fx, hb, n, ps)[0]:
+                continue
+            if not AC.account_function(fx, hb)[0]:
+                return True
+    return False
+
+
 # (rule, canary function, detector, expected verdict)
 CANARIES = [
     ("R8.count", "canary_write_count_dropped", _write_count_dropped, True),
@@ -146,6 +157,15 @@ CANARIES = [
     ("R10.noexit0", "canary_eprintln", _forbidden, True),
     ("R10.noexit0", "canary_catch", _forbidden, True),
     ("R10.nounsafe", "canary_unsafe", _unsafe, True),
+    ("R6.sources", "canary_chunked_decode", lambda fx, b: bool(__import__("engine.props.shared", fromlist=["x"]).chunked_decodes(fx, b)), True),
+    ("R6.sources", "canary_whole_decode", lambda fx, b: bool(__import__("engine.props.shared", fromlist=["x"]).chunked_decodes(fx, b)), False),
+    ("R8.account", "canary_partial_resumed", _unaccounted, False),
+    ("R8.account", "canary_partial_misresumed", _unaccounted, True),
+    ("R8.account", "canary_partial_unresumed", _unaccounted, True),
+    ("R8.account", "canary_vectored_resumed", _unaccounted, False),
+    ("R8.account", "canary_vectored_misresumed", _unaccounted, True),
+    ("R8.account", "canary_resume_loop", _unaccounted, False),
+    ("R8.account", "canary_bad_loop", _unaccounted, True),
     ("R3.narrow", "canary_narrow", _narrow_unguarded, True),
     ("R3.narrow", "canary_narrow_guarded", _narrow_unguarded, False),
 ]
